@@ -43,6 +43,7 @@ struct Sched {
     // log + bookkeeping, touched only by the thread that holds the baton (or by main while inactive)
     std::vector<std::string> events;
     int held_total = 0, in_flight = 0;
+    std::vector<char> releasing;   // thread has begun to release a handle but its decrement has not happened yet
     int dtor_calls = 0;
     bool obj_live = false;
     std::string pbad;
@@ -66,6 +67,7 @@ void sched_point() {
 }
 
 void log_rmw(char kind, unsigned long old_value) {
+    if (kind == 'S' && tid >= 0 && tid < static_cast<int>(S.releasing.size())) S.releasing[tid] = 0;
     S.events.push_back(std::string(1, kind) + "," + std::to_string(tid) + "," + std::to_string(old_value));
 }
 
@@ -80,18 +82,27 @@ struct Obj : public tlx::ReferenceCounter {
     int* heap;
     explicit Obj(int x) : payload(x), heap(new int(x)) { S.obj_live = true; }
     Obj(const Obj&) = delete;
-    ~Obj() {
+    ~Obj() { delete heap; heap = nullptr; }
+};
+
+// The Deleter handed to CountingPtr: it COUNTS its calls (exactly one is allowed) and checks that no handle is left;
+// the memory is released by the harness after all threads have finished, so that a second call or a late access to
+// the counter is reported as a property violation with its schedule instead of crashing the process.
+static Obj* g_pending_free = nullptr;
+struct CountingDeleter {
+    void operator()(Obj* p) const noexcept {
         verif::sched_point();                      // other threads may run between the decrement and the Deleter
         verif::log_ev("D," + std::to_string(verif::tid));
         ++S.dtor_calls;
-        if (!S.obj_live) S.flag("object destroyed twice");
+        if (!S.obj_live) S.flag("Deleter called twice on the same object");
         if (S.held_total != 0 || S.in_flight != 0) S.flag("object destroyed while a handle remains");
+        for (size_t u = 0; u < S.releasing.size(); ++u)
+            if (static_cast<int>(u) != verif::tid && S.releasing[u]) S.flag("object destroyed while a handle remains (its release has not decremented yet)");
         S.obj_live = false;
-        delete heap;
-        heap = nullptr;
+        g_pending_free = p;
     }
 };
-using P = tlx::CountingPtr<Obj>;
+using P = tlx::CountingPtr<Obj, CountingDeleter>;
 
 static void worker(int t, const std::string* prog, P* initial) {
     verif::tid = t;
@@ -100,7 +111,8 @@ static void worker(int t, const std::string* prog, P* initial) {
         std::vector<P> hs;
         hs.reserve(64);
         hs.push_back(std::move(*initial));           // move: no shared access
-        auto drop_begin = [&] { --S.held_total; };
+        auto drop_begin = [&] { --S.held_total; S.releasing[t] = 1; };
+        auto drop_end = [&] { S.releasing[t] = 0; };
         for (char c : *prog) {
             if (hs.empty() || !hs.back()) break;
             if (c == 'C') {
@@ -115,9 +127,9 @@ static void worker(int t, const std::string* prog, P* initial) {
                 --S.in_flight; ++S.held_total;
                 hs.push_back(std::move(x));
             }
-            else if (c == 'D') { drop_begin(); hs.pop_back(); }
-            else if (c == 'r') { drop_begin(); hs.back().reset(); hs.pop_back(); }
-            else if (c == 'x') { drop_begin(); hs.back() = P(); hs.pop_back(); }
+            else if (c == 'D') { drop_begin(); hs.pop_back(); drop_end(); }
+            else if (c == 'r') { drop_begin(); hs.back().reset(); drop_end(); hs.pop_back(); }
+            else if (c == 'x') { drop_begin(); hs.back() = P(); drop_end(); hs.pop_back(); }
             else if (c == 'U') {
                 verif::sched_point();
                 verif::log_ev("U," + std::to_string(t));
@@ -125,7 +137,7 @@ static void worker(int t, const std::string* prog, P* initial) {
                 else if (*hs.back()->heap != hs.back()->payload) S.flag("payload damaged");
             }
         }
-        while (!hs.empty()) { drop_begin(); hs.pop_back(); }
+        while (!hs.empty()) { drop_begin(); hs.pop_back(); drop_end(); }
     }
     std::unique_lock<std::mutex> lk(S.m);
     S.state[t] = verif::FINISHED;
@@ -139,8 +151,8 @@ struct RunResult { std::vector<int> taken, width; std::string trace; std::string
 static RunResult run_once(const std::vector<std::string>& progs, const std::vector<int>& prefix, verif::Rng* rng) {
     int n = static_cast<int>(progs.size());
     RunResult R;
-    S.n = n; S.state.assign(n, verif::NOTSTARTED); S.at_start.assign(n, 0); S.current = -1;
-    S.events.clear(); S.held_total = 0; S.in_flight = 0; S.dtor_calls = 0; S.obj_live = false; S.pbad.clear();
+    S.n = n; S.releasing.assign(n, 0); S.state.assign(n, verif::NOTSTARTED); S.at_start.assign(n, 0); S.current = -1;
+    S.events.clear(); S.held_total = 0; S.in_flight = 0; S.dtor_calls = 0; S.obj_live = false; S.pbad.clear(); g_pending_free = nullptr;
     S.active = false; verif::tid = 0;
     std::vector<P> init(n);                            // empty handles
     {
@@ -186,6 +198,8 @@ static RunResult run_once(const std::vector<std::string>& progs, const std::vect
     for (auto& t : th) t.join();
     S.active = false; verif::tid = 0;
     init.clear();
+    Obj* raw_obj = g_pending_free; g_pending_free = nullptr;
+    if (raw_obj) delete raw_obj;                      // the deferred release (at most once, whatever the Deleter count)
     if (S.dtor_calls == 0) S.flag("object never destroyed although every handle is gone");
     else if (S.dtor_calls > 1) S.flag("object destroyed more than once");
     if (S.held_total != 0) S.flag("harness bookkeeping: handles left");
@@ -232,6 +246,7 @@ int main(int argc, char** argv) {
                 int i = static_cast<int>(R.taken.size()) - 1;
                 while (i >= 0 && R.taken[i] + 1 >= R.width[i]) --i;
                 if (i < 0) { exhaustive = true; break; }
+                if (!firstbad.empty()) break;            // a violating interleaving is enough for this case
                 prefix.assign(R.taken.begin(), R.taken.begin() + i);
                 prefix.push_back(R.taken[i] + 1);
                 if (runs >= cap) break;
@@ -241,7 +256,7 @@ int main(int argc, char** argv) {
             unsigned long long seed = 0; long count = 0;
             sscanf(mode.c_str() + 5, "%llu:%ld", &seed, &count);
             verif::Rng rng(seed);
-            for (long k = 0; k < count && k < cap; ++k) emit(run_once(progs, {}, &rng));
+            for (long k = 0; k < count && k < cap && firstbad.empty(); ++k) emit(run_once(progs, {}, &rng));
         }
         else if (mode.compare(0, 6, "sched:") == 0) {
             std::vector<int> prefix; std::string s = mode.substr(6); size_t q = 0;
